@@ -637,6 +637,13 @@ func c20gcs(c *vf.Ctx, i int) {
 	var key [16]byte
 	copy(key[:], c.R.Bytes(16))
 	n := 1 + c.R.Intn(120)
+	huge := i%40 == 39
+	if huge {
+		// beyond 2^16 elements: size-dependent internal paths (caches, worker
+		// pools) only exist for big filters
+		n = 65537 + c.R.Intn(9000)
+		c.Inc("gcs_shared_filter_beyond_65536_elements")
+	}
 	data := make([][]byte, n)
 	for j := range data {
 		data[j] = c.R.Bytes(1 + c.R.Intn(20))
@@ -675,9 +682,15 @@ func c20gcs(c *vf.Ctx, i int) {
 		want  [4]bool
 	}
 	qs := make([]query, 12)
+	if huge {
+		qs = qs[:3]
+	}
 	for j := range qs {
 		q := &qs[j]
 		m := 1 + c.R.Intn(2*n+2)
+		if huge && j == 0 {
+			m = n/2 + 1 + c.R.Intn(100) // large enough for MatchAny to pick the hash strategy
+		}
 		if c.R.Bool() {
 			m = 1 + c.R.Intn(4)
 		}
